@@ -57,6 +57,9 @@ func init() {
 	specsFor["C04"] = c04Specs
 	checks["C04"] = func(c *Ctx) *Result {
 		r := runSpecs(c, c04Specs(c.Tier))
+		pr := probesFor(bs("a", "ab", "b"))
+		runLongChainPrunes(c, r, []Oracle{oracleReads(pr), oracleHashes(), oracleProofs(pr[:5], false), oracleFresh(oracleReads(pr), oracleHashes())},
+			[]Cfg{defaultCfg, {Fast: false, Cache: 1000, Flush: 150}})
 		r.Assumptions = []string{
 			"synchronous pruning; DeleteVersionsTo(n) is only issued for n below the version the working tree is based on, or n >= latest (must be rejected)",
 			"an open export is read to its end before the next operation (so the exporter goroutine is quiescent) and stays open (pinned) until ExportClose",
